@@ -248,8 +248,8 @@ func (rr *RRSIG) Sign(k crypto.Signer, rrset []RR) error {
 	rr.TypeCovered = h0.Rrtype
 	rr.Labels = uint8(CountLabel(h0.Name))
 
-	if strings.HasPrefix(h0.Name, "*") {
-		rr.Labels-- // wildcard, remove from label count
+	if h0.Name == "*" || strings.HasPrefix(h0.Name, "*.") {
+		rr.Labels-- // wildcard (the leftmost label is "*", not merely starts with it), remove from label count
 	}
 
 	return rr.signAsIs(k, rrset)
